@@ -174,8 +174,16 @@ def probe_path(run, sb: Sandbox, aud: Auditor, fs, root: str, label: str, path: 
     if res is False and not inside:
         fail(f'{path!r} in fs answered False (no RootEscapeError) for a path that resolves outside the root', key=classify(path) + ':silent-miss')
     # direct opens
-    for op, fn in (('open_bin', lambda: fs.open_bin(path).read()), ('open_str', lambda: fs.open_str(path).read().encode()),
-                   ('read_kv1', lambda: fs.read_kv1(path).serialise().encode())):
+    import srctools.filesys as _fsm
+    handle_ops = []
+    if isinstance(fs, _fsm.RawFileSystem):
+        # a File handle that names the path (made by hand, or by another filesystem object over the same directory) goes
+        # through the same containment check as the string
+        handle_ops = [('open_bin(File)', lambda: fs.open_bin(_fsm.File(fs, path, path)).read()),
+                      ('open_str(File)', lambda: fs.open_str(_fsm.File(fs, path, path)).read().encode())]
+        run.count('file_handle_opens')
+    for op, fn in [('open_bin', lambda: fs.open_bin(path).read()), ('open_str', lambda: fs.open_str(path).read().encode()),
+                   ('read_kv1', lambda: fs.read_kv1(path).serialise().encode())] + handle_ops:
         data, exc = guarded(op, fn)
         if data is not None and b'OUTSIDE' in data:
             fail(f'{op}({path!r}) returned data from outside the root: {data[:60]!r}')
@@ -207,6 +215,18 @@ def make_systems(sb: Sandbox):
     systems.append(('raw-sub-root', RawFileSystem(os.path.join(sb.root, 'sub')), os.path.join(sb.root, 'sub'), ''))
     systems.append(('raw-after-unconstrained-twin', RawFileSystem(sb.root, constrain_path=True), sb.root, ''))
     systems.append(('raw-primed', RawFileSystem(sb.root, constrain_path=True), sb.root, ''))
+    # other spellings of the same root: a path object, a detour through a sibling, a doubled separator
+    import pathlib
+    systems.append(('raw-pathlib-root', RawFileSystem(pathlib.Path(sb.root), constrain_path=True), sb.root, ''))
+    systems.append(('raw-root-via-sibling', RawFileSystem(os.path.join(sb.base, 'rootx', '..', 'root'), constrain_path=True), sb.root, ''))
+    systems.append(('raw-root-doubled-sep', RawFileSystem(sb.base + os.sep + os.sep + 'root', constrain_path=True), sb.root, ''))
+    # the option switched on through the public attribute of a filesystem that was created without it
+    late = RawFileSystem(sb.root, constrain_path=False)
+    late.constrain_path = True
+    systems.append(('raw-constrained-by-attribute', late, sb.root, ''))
+    # chain prefixes in other spellings
+    systems.append(('chain-prefix-sub-slash', FileSystemChain((RawFileSystem(sb.root), 'sub/')), sb.root, 'sub'))
+    systems.append(('chain-prefix-dot-sub', FileSystemChain((RawFileSystem(sb.root), './sub')), sb.root, 'sub'))
     return systems
 
 
@@ -271,7 +291,7 @@ def main(run, shard=(0, 1)) -> None:
         sb.cleanup()
     probe.report(run)
     probe.check_reached(run)
-    run.require('operations', 'root_escape_errors', 'paths_enumerated', 'primed_operations')
+    run.require('operations', 'file_handle_opens', 'root_escape_errors', 'paths_enumerated', 'primed_operations')
 
 
 def replay(run, data) -> None:
